@@ -280,8 +280,27 @@ def t_translate(ctx):
     ctx.oblige("post", "translate.distance_is_r", sd * sdo + xx == cr, trig=True, focus=1)
 
 
+def t_array_args(ctx):
+    """array arguments: results are elementwise, and the caller's arrays are not modified (frame)"""
+    from contracts.arrays import SArr
+    n = Sym(z3.Int('n'))
+    ctx.assume(n >= 1)
+    for fn, nargs in (('gcd', 4), ('bear', 4), ('translate', 4)):
+        args = [SArr.fresh("%s_a%d" % (fn, k), (n,)) for k in range(nargs)]
+        before = [(a.elem, list(a.writes)) for a in args]
+        g = {'np': lib.std_np(), 'math': lib.std_math()}
+        out = run_function(ctx, FILE, fn, list(args), globals_=g)
+        ok = out.kind == 'return'
+        ctx.oblige("frame", "%s.array_arguments_not_modified" % fn,
+                   ok and all(a.elem is b[0] and a.writes == b[1] for a, b in zip(args, before)))
+        res = out.value if ok else None
+        outs = list(res) if isinstance(res, tuple) else [res]
+        ctx.oblige("post", "%s.array_result_elementwise_shape" % fn,
+                   ok and all(isinstance(r, SArr) and len(r.shape_) == 1 and r.shape_[0] is n for r in outs))
+
+
 def verify(S):
-    targets = [("angle_tools.dec2dms", t_dec2dms), ("angle_tools.dec2hms", t_dec2hms),
+    targets = [("angle_tools.arrays", t_array_args),("angle_tools.dec2dms", t_dec2dms), ("angle_tools.dec2hms", t_dec2hms),
                ("angle_tools.sexagesimal", t_nonfinite), ("angle_tools.dec2dec", t_dec2dec_two_fields),
                ("angle_tools.gcd", t_gcd), ("angle_tools.bear", t_bear), ("angle_tools.translate", t_translate)]
     for name, fn in targets:
@@ -317,6 +336,9 @@ REPLAY = {
     "translate.sin_dec_out_is_rotated_z": "replay_sphere", "translate.distance_is_r": "replay_sphere",
     "translate.dra_arguments": "replay_sphere", "translate.ra_out_is_ra_plus_dra": "replay_sphere",
     "translate.dec_out_is_degrees_of_arcsin": "replay_sphere", "translate.arcsin_argument_in_domain": "replay_sphere",
+    "gcd.array_arguments_not_modified": "replay_arrays", "bear.array_arguments_not_modified": "replay_arrays",
+    "translate.array_arguments_not_modified": "replay_arrays", "gcd.array_result_elementwise_shape": "replay_arrays",
+    "bear.array_result_elementwise_shape": "replay_arrays", "translate.array_result_elementwise_shape": "replay_arrays",
 }
 
 NATIVE_CHECKS = [{"func": "crosscheck", "payload": {}}]
